@@ -35,6 +35,10 @@ def run(ctx):
     ck = [["cK"], ["rp1", "cK"], ["cK", "rp1"], ["fbR", "cK"], ["cK", "cbA"], ["cIf", "cK"], ["cK", "cbHR"], ["cK", "rpHL"], ["cK", "fbOR"]]
     jobs.append(dict(ctx=ctx, binary=binary, name="ckeys", stacks=ck, outs=seq.OUTS3, maxcalls=2, execs=3, ctxkeys=("none", "k2", "nonstring"), workers=4))
     jobs.append(dict(ctx=ctx, binary=binary, name="bh0", stacks=[["bh0"], ["rp1", "bh0"], ["fbR", "bh0"], ["bh0", "rp1"]], outs=seq.OUTS3, maxcalls=2, execs=2, workers=2))
+    # a fallback whose OWN output is an error it does not handle (verdict success) / a result it handles (verdict failure): what
+    # the policies around it see and what the completion listeners are told
+    fbown = [["fbHE"], ["fbRR"], ["rp", "fbHE"], ["rp", "fbRR"], ["fbHE", "rp1"], ["cbA", "fbHE"], ["cbA", "fbRR"], ["fbR", "fbHE"], ["cK", "fbHE"], ["fbHE", "cbA"]]
+    jobs.append(dict(ctx=ctx, binary=binary, name="fbown", stacks=fbown, outs=seq.OUTS3, maxcalls=3, execs=2, workers=4))
     mism = seq.run_jobs(ctx, jobs, par=2)
     seq.report(ctx, mism, lambda m: m["tag"] in TAGS)
     # nesting with the two policies that need time and threads (Timeout firing, Hedge): the state of the stateful policies
